@@ -217,4 +217,24 @@ def error_discard_sites(F):
                     owner = p_.split("::{closure")[0].replace("samyama::query::executor::operator::", "").replace("samyama::query::executor::", "")
                     owner = owner.replace("<", "").replace(">", "")
                     out.append((owner, c.path.rsplit("::", 1)[-1], u[1].path.rsplit("::", 1)[-1], r_, c.line))
+    # match form: `match eval(..) { Ok(v) => .., Err(_) => <a value> }`
+    for fnp in F.all_arm_fns():
+        fnp = fnp[1] if isinstance(fnp, tuple) else fnp
+        r_ = F.fns.get(fnp)
+        if not r_ or not in_module(fnp, "samyama::query::executor::") or "::tests::" in fnp:
+            continue
+        for m in F.arms(fnp):
+            sty = m["sty"].replace("&", "").strip()
+            if not (sty.startswith("std::result::Result<samyama::query::executor::record::Value") or sty.startswith("std::result::Result<bool, samyama::query::executor::ExecutionError")):
+                continue
+            for arm in m["arms"]:
+                pt = arm["pat"]
+                if pt.get("k") != "variant" or not pt["p"].endswith("::Err"):
+                    continue
+                sub = pt.get("sub") or []
+                ignores = all(x.get("k") == "wild" for x in sub) if sub else True
+                reraises = any(c.endswith("Result::Err") or "ExecutionError::" in c for c in arm["ctors"]) or any(c.rsplit("::", 1)[-1] in ("from_residual",) for c in arm["calls"])
+                if ignores and not reraises and not arm.get("empty"):
+                    owner = fnp.split("::{closure")[0].replace("samyama::query::executor::operator::", "").replace("samyama::query::executor::", "").replace("<", "").replace(">", "")
+                    out.append((owner, "eval (match)", "Err(_)-arm", r_, arm["lo"]))
     return out
